@@ -5,6 +5,8 @@
 From Verif Require Import Lib.Base Lib.PyStr Gen.PyChars Repro.ListView Repro.ListSpec Repro.ListLemmas.
 From Coq Require Import Lia.
 
+Ltac splits := repeat match goal with |- _ /\ _ => split end.
+
 (** * Character facts (checked against the generated tables by computation) *)
 
 Lemma isws_LF : isws LF = true. Proof. reflexivity. Qed.
@@ -74,11 +76,12 @@ Definition vals (ts : list tok) : list str := map tx (filter is_val ts).
 Definition tok_ok_sp (t : tok) : bool :=
   match tk t with
   | KVal => nonempty (tx t) && forallb notws (tx t)
-  | KSep => nonempty (tx t) && forallb isws (tx t) && no_lb (tx t)
+  | KSep | KWs => nonempty (tx t) && forallb isws (tx t) && no_lb (tx t)
+       (* KWs: the plain whitespace token that append() puts before the very first value *)
   | KCont => str_eqb (tx t) [SP] || str_eqb (tx t) [TAB]
   | KNl => str_eqb (tx t) [LF]
   | KCom => starts_hash (tx t) && no_lb (removelast (tx t))
-  | KWs | KComma => false
+  | KComma => false
   end.
 
 (** ** The line structure of a token list, as an automaton over kinds.
@@ -90,11 +93,11 @@ Record ast := AST { s_lf : bool; s_pv : bool; s_ok : bool }.
 Definition astep (s : ast) (k : kind) : option ast :=
   match k with
   | KVal => if s_lf s || s_pv s then None else Some (AST false true true)
-  | KSep => if s_lf s then None else Some (AST false false (s_ok s))
+  | KSep | KWs => if s_lf s then None else Some (AST false false (s_ok s))
   | KNl => if s_lf s || negb (s_ok s) then None else Some (AST true false false)
   | KCom => if s_lf s then Some (AST true false false) else None
   | KCont => if s_lf s then Some (AST false false false) else None
-  | KWs | KComma => None
+  | KComma => None
   end.
 
 Fixpoint arun (s : ast) (ts : list tok) : option ast :=
@@ -308,16 +311,16 @@ Proof.
   { unfold tok_ok_sp. cbn [tk tx]. apply orb_true_iff in Hc.
     destruct Hc as [Hc|Hc]; apply N.eqb_eq in Hc; subst c; reflexivity. }
   destruct term.
-  - rewrite ends_with_lf_snoc, removelast_snoc, Hts. cbn [bind].
-    eexists. split; [reflexivity|]. repeat split.
+  - rewrite ends_with_lf_snoc, removelast_snoc. cbn [line_func]. rewrite Hts. cbn [bind].
+    eexists. split; [reflexivity|]. splits.
     + cbn [app]. rewrite toks_text_cons, toks_text_app, Htx. reflexivity.
     + constructor; [exact Hkc|]. apply Forall_app. split; [assumption|]. constructor; [reflexivity|constructor].
     + cbn [app filter nc is_comment_tok tk kind_eqb negb]. rewrite filter_app, valsep_nc by assumption. reflexivity.
     + cbn [app forallb]. rewrite forallb_app, valsep_com_lf by assumption. reflexivity.
     + exists false. cbn [app arun astep tk sLF s_lf]. rewrite arun_app.
       destruct (Hrun false) as [pv Hpv]. rewrite Hpv, Hnb. reflexivity.
-  - rewrite app_nil_r. rewrite no_lb_not_ends_lf by assumption. rewrite Hts. cbn [bind].
-    eexists. split; [reflexivity|]. repeat split.
+  - rewrite app_nil_r. rewrite no_lb_not_ends_lf by assumption. cbn [line_func]. rewrite Hts. cbn [bind].
+    eexists. split; [reflexivity|]. splits.
     + cbn [app]. rewrite app_nil_r, toks_text_cons, Htx. reflexivity.
     + rewrite app_nil_r. constructor; assumption.
     + rewrite app_nil_r. cbn [app filter nc is_comment_tok tk kind_eqb negb]. now rewrite valsep_nc.
@@ -327,6 +330,9 @@ Proof.
 Qed.
 
 Definition noncomment_line (l : str) : bool := negb (is_comment_line l).
+
+Lemma noncomment_line_cons c b : noncomment_line (c :: b) = negb (c =? HASH)%N.
+Proof. reflexivity. Qed.
 
 Lemma starts_cont_cases l : starts_cont l = true ->
   exists c b, l = c :: b /\ ((c =? HASH)%N = true \/ (c =? SP)%N || (c =? TAB)%N = true /\ (c =? HASH)%N = false).
@@ -345,7 +351,7 @@ Lemma cont_lines_sp : forall r,
     /\ Forall (fun t => tok_ok_sp t = true) ts
     /\ toks_text (filter nc ts) = concat (filter noncomment_line (lines_lf r))
     /\ (open_comment r = false -> forallb com_lf ts = true)
-    /\ exists s', arun sLF ts = Some s'.
+    /\ exists s', arun sLF ts = Some s' /\ s_ok s' || s_lf s' = true.
 Proof.
   intros r. pattern r. apply lines_ind; clear r.
   - intros _ _. exists []. repeat split; try constructor. now exists sLF.
@@ -357,7 +363,7 @@ Proof.
     destruct (starts_cont_cases b Hsc) as [c [b' [-> [Hc|[Hc Hh]]]]].
     + apply N.eqb_eq in Hc. subst c. cbn [lines_tokens line_tokens negb andb starts_hash].
       change (HASH =? HASH)%N with true. cbn [bind app].
-      eexists. split; [reflexivity|]. repeat split.
+      eexists. split; [reflexivity|]. splits.
       * unfold toks_text. simpl. now rewrite app_nil_r.
       * constructor; [|constructor]. unfold tok_ok_sp. cbn [tk tx starts_hash].
         change (HASH =? HASH)%N with true. cbn [andb]. now apply no_lb_removelast.
@@ -365,7 +371,7 @@ Proof.
       * intros Ho. unfold open_comment in Ho. rewrite lines_lf_last in Ho by assumption.
         cbn [last_opt is_comment_line] in Ho. change (HASH =? 35)%N with true in Ho.
         cbn [andb] in Ho. apply negb_false_iff in Ho.
-        cbn [forallb com_lf is_comment_tok tk kind_eqb tx]. now rewrite Ho.
+        rewrite no_lb_not_ends_lf in Ho by assumption. discriminate.
       * now exists sLF.
     + assert (Hb' : no_lb b' = true).
       { change (c :: b') with ([c] ++ b') in Hlb. rewrite no_lb_app in Hlb. apply andb_true_iff in Hlb. tauto. }
@@ -374,21 +380,20 @@ Proof.
         apply orb_true_iff in Hc. destruct Hc as [Hc|Hc]; apply N.eqb_eq in Hc; subst c; discriminate. }
       destruct (cont_line_sp c b' false Hc Hb' Hnb') as [ts [Hts [Htx [Hk [Hf [Hcl [pv Hrun]]]]]]].
       rewrite app_nil_r in *. cbn [lines_tokens]. rewrite Hts. cbn [bind]. rewrite app_nil_r.
-      exists ts. repeat split; try assumption.
-      * rewrite Hf, Htx. cbn [filter noncomment_line is_comment_line].
-        change 35%N with HASH. rewrite Hh. cbn [negb concat]. now rewrite app_nil_r.
-      * eexists. exact Hrun.
+      exists ts. splits; try assumption; try (intros _; assumption); try reflexivity.
+      * rewrite Hf, Htx. cbn [filter]. rewrite noncomment_line_cons, Hh. cbn [negb concat]. now rewrite app_nil_r.
+      * eexists. split; [exact Hrun|reflexivity].
   - (* a terminated line, then the rest *)
     intros b r Hb IH Hlf Hok. rewrite lines_lf_line in * by assumption.
     destruct (lf_only_line b r Hlf Hb) as [Hlb Hlfr].
     cbn [forallb] in Hok. apply andb_true_iff in Hok. destruct Hok as [Hl Hok].
-    destruct (IH Hlfr Hok) as [tr [Htr [Htxr [Hkr [Hfr [Hcr [s' Hrunr]]]]]]].
+    destruct (IH Hlfr Hok) as [tr [Htr [Htxr [Hkr [Hfr [Hcr [s' [Hrunr Hfin]]]]]]]].
     unfold cont_line_ok in Hl. apply andb_true_iff in Hl. destruct Hl as [Hsc Hnb].
     apply negb_true_iff in Hnb.
     destruct (starts_cont_cases _ Hsc) as [c [b' [El [Hc|[Hc Hh]]]]].
     + apply N.eqb_eq in Hc. subst c. cbn [lines_tokens]. rewrite El.
       cbn [line_tokens negb andb starts_hash]. change (HASH =? HASH)%N with true. cbn [bind].
-      rewrite Htr. cbn [bind app]. eexists. split; [reflexivity|]. repeat split.
+      rewrite Htr. cbn [bind app]. exists (Tok KCom (HASH :: b') :: tr). split; [reflexivity|]. splits.
       * rewrite toks_text_cons, Htxr. cbn [tx]. rewrite <- El. now rewrite <- app_assoc.
       * constructor; [|assumption]. unfold tok_ok_sp. cbn [tk tx starts_hash].
         change (HASH =? HASH)%N with true. cbn [andb]. rewrite <- El, removelast_snoc. exact Hlb.
@@ -397,7 +402,7 @@ Proof.
       * intros Ho. rewrite open_comment_line in Ho by assumption.
         cbn [forallb com_lf is_comment_tok tk kind_eqb tx]. rewrite <- El, ends_with_lf_snoc.
         now apply Hcr.
-      * cbn [arun astep tk sLF s_lf]. eexists. exact Hrunr.
+      * cbn [arun astep tk sLF s_lf]. eexists. split; [exact Hrunr|exact Hfin].
     + destruct b as [|c1 b1]; [simpl in El; injection El as <- <-; discriminate|].
       simpl in El. injection El as <- <-.
       assert (Hb' : no_lb b1 = true).
@@ -411,13 +416,1020 @@ Proof.
       destruct (cont_line_sp c1 b1 true Hc Hb' Hnb') as [ts [Hts [Htx [Hk [Hf [Hcl [pv Hrun]]]]]]].
       cbn [lines_tokens]. change ((c1 :: b1) ++ [LF]) with (c1 :: b1 ++ [LF]).
       rewrite Hts. cbn [bind]. rewrite Htr. cbn [bind].
-      eexists. split; [reflexivity|]. repeat split.
+      eexists. split; [reflexivity|]. splits.
       * rewrite toks_text_app, Htx, Htxr. cbn [app]. now rewrite <- app_assoc.
       * apply Forall_app. split; assumption.
       * rewrite filter_app, toks_text_app, Hf, Htx, Hfr.
-        cbn [filter noncomment_line is_comment_line]. change 35%N with HASH. rewrite Hh.
-        cbn [negb concat]. reflexivity.
+        cbn [filter]. rewrite noncomment_line_cons, Hh. cbn [negb concat]. reflexivity.
       * intros Ho. rewrite open_comment_line in Ho by assumption.
         rewrite forallb_app, Hcl. now apply Hcr.
-      * rewrite arun_app, Hrun. eexists. exact Hrunr.
+      * rewrite arun_app, Hrun. eexists. split; [exact Hrunr|exact Hfin].
+Qed.
+
+(** * tokenize on a value text of the property's domain *)
+
+Lemma lf_only_islb v : lf_only v = true -> forall c, In c v -> py_islinebreak c = is_lf c.
+Proof.
+  unfold lf_only. rewrite forallb_forall. intros H c Hc. specialize (H c Hc).
+  destruct (is_lf c) eqn:E.
+  - unfold is_lf in E. apply N.eqb_eq in E. now subst c.
+  - rewrite orb_false_r in H. now apply negb_true_iff in H.
+Qed.
+
+Lemma splitlines_lf_only v : lf_only v = true -> splitlines py_islinebreak true v = lines_lf v.
+Proof.
+  intros H. unfold lines_lf, splitlines. eapply splitlines_aux_ext; [reflexivity|].
+  now apply lf_only_islb.
+Qed.
+
+Lemma blank_all_ws v : v <> [] -> all_ws v = blank v.
+Proof. intros H. unfold all_ws, blank. destruct v; [congruence|reflexivity]. Qed.
+
+Definition open_comment1 (v : str) : bool :=
+  match lines_lf v with
+  | [] => false
+  | _ :: ls => match last_opt ls with
+               | Some l => is_comment_line l && negb (ends_with_lf l)
+               | None => false
+               end
+  end.
+
+Lemma closed_value_open v : closed_value v = negb (open_comment1 v).
+Proof.
+  unfold closed_value, open_comment1. destruct (lines_lf v) as [|l ls]; [reflexivity|].
+  destruct (last_opt ls) as [l'|]; [|reflexivity].
+  change (ends_lf l') with (ends_with_lf l').
+  destruct (is_comment_line l'), (ends_with_lf l'); reflexivity.
+Qed.
+
+Lemma tokenize_sp_ok v : value_ok v = true ->
+  exists ts s', tokenize Space v = Ok ts
+    /\ toks_text ts = v
+    /\ Forall (fun t => tok_ok_sp t = true) ts
+    /\ toks_text (filter nc ts) = drop_comment_lines v
+    /\ (open_comment1 v = false -> forallb com_lf ts = true)
+    /\ arun s0 ts = Some s' /\ s_ok s' || s_lf s' = true.
+Proof.
+  intros Hv. unfold value_ok in Hv. apply andb_true_iff in Hv. destruct Hv as [Hv Hls].
+  apply andb_true_iff in Hv. destruct Hv as [Hlf Hnb]. apply negb_true_iff in Hnb.
+  assert (Hne : v <> []) by (intros ->; discriminate).
+  unfold tokenize. rewrite blank_all_ws, Hnb by assumption.
+  rewrite splitlines_lf_only by assumption. unfold drop_comment_lines, open_comment1.
+  destruct (lf_decompose v) as [b [rest [Hb [[-> ->]|[r [-> ->]]]]]].
+  - (* a single unterminated line *)
+    pose proof (lf_only_no_lb b Hlf Hb) as Hlb.
+    rewrite lines_lf_last by assumption.
+    cbn [lines_tokens line_tokens negb andb bind]. rewrite no_lb_not_ends_lf by assumption.
+    cbn [line_func].
+    destruct (ws_line_tokens_ok b Hlb) as [ts [Hts [Htx [Hok [Hvs Hrun]]]]].
+    rewrite Hts. cbn [bind]. rewrite !app_nil_r.
+    destruct (Hrun true) as [pv Hpv].
+    exists ts. eexists. split; [reflexivity|]. splits; try assumption.
+    + rewrite valsep_nc by assumption. exact Htx.
+    + intros _. now apply valsep_com_lf.
+    + exact Hpv.
+    + reflexivity.
+  - destruct (lf_only_line b r Hlf Hb) as [Hlb Hlfr].
+    rewrite lines_lf_line in * by assumption.
+    destruct (cont_lines_sp r Hlfr Hls) as [tr [Htr [Htxr [Hkr [Hfr [Hcr [s' [Hrunr Hfin]]]]]]]].
+    cbn [lines_tokens line_tokens negb andb bind]. rewrite ends_with_lf_snoc, removelast_snoc.
+    cbn [line_func].
+    destruct (ws_line_tokens_ok b Hlb) as [ts [Hts [Htx [Hok [Hvs Hrun]]]]].
+    rewrite Hts. cbn [bind]. rewrite Htr. cbn [bind app].
+    destruct (Hrun true) as [pv Hpv].
+    exists ((ts ++ [Tok KNl [LF]]) ++ tr), s'. split; [reflexivity|]. splits.
+    + rewrite !toks_text_app, Htx, Htxr. cbn. now rewrite <- app_assoc.
+    + repeat (apply Forall_app; split); try assumption. constructor; [reflexivity|constructor].
+    + rewrite !filter_app, !toks_text_app, valsep_nc, Htx, Hfr by assumption. reflexivity.
+    + intros Ho. rewrite !forallb_app, valsep_com_lf by assumption. cbn [forallb com_lf is_comment_tok tk kind_eqb andb].
+      apply Hcr. exact Ho.
+    + unfold s0. rewrite !arun_app, Hpv. cbn [arun astep tk s_lf s_ok orb negb]. exact Hrunr.
+    + exact Hfin.
+Qed.
+
+(** * From tokens to values: whitespace-separated lists *)
+
+Lemma tok_ok_sp_ws t : tok_ok_sp t = true -> is_val t = false -> nc t = true ->
+  tx t <> [] /\ forallb isws (tx t) = true.
+Proof.
+  unfold tok_ok_sp, is_val, nc, is_comment_tok. destruct t as [k x]. cbn [tk tx].
+  destruct k; cbn [kind_eqb negb]; intros H; try discriminate; intros _ _.
+  - apply andb_true_iff in H. destruct H as [H _]. apply andb_true_iff in H. destruct H as [H1 H2].
+    split; [destruct x; [discriminate|discriminate]|assumption].
+  - apply andb_true_iff in H. destruct H as [H _]. apply andb_true_iff in H. destruct H as [H1 H2].
+    split; [destruct x; [discriminate|discriminate]|assumption].
+  - apply orb_true_iff in H. destruct H as [H|H]; apply str_eqb_eq in H; subst x; split; try discriminate; reflexivity.
+  - apply str_eqb_eq in H. subst x. split; [discriminate|reflexivity].
+Qed.
+
+Lemma ws_head_app_ne x rest : x <> [] -> forallb isws x = true -> ws_head isws (x ++ rest) = true.
+Proof. destruct x as [|c x]; [congruence|]. simpl. intros _ H. apply andb_true_iff in H. tauto. Qed.
+
+(** the values of an accepted token list are the words of its comment-free text *)
+Lemma sp_vals : forall ts s s',
+  Forall (fun t => tok_ok_sp t = true) ts -> arun s ts = Some s' ->
+  split_ws isws (toks_text (filter nc ts)) = vals ts
+  /\ (s_pv s || s_lf s = true -> ws_head isws (toks_text (filter nc ts)) = true).
+Proof.
+  induction ts as [|t r IH]; intros s s' Hok Hrun; [split; reflexivity|].
+  inversion Hok as [|? ? Ht Hr]; subst. cbn [arun] in Hrun.
+  destruct (astep s (tk t)) as [s1|] eqn:Es; [|discriminate].
+  destruct (IH s1 s' Hr Hrun) as [IH1 IH2].
+  destruct (is_val t) eqn:Ev.
+  - (* a value *)
+    assert (Hk : tk t = KVal) by (unfold is_val in Ev; destruct (tk t); try discriminate; reflexivity).
+    rewrite Hk in Es. cbn [astep] in Es.
+    destruct (s_lf s || s_pv s) eqn:E; [discriminate|]. injection Es as <-.
+    assert (Hnc : nc t = true) by (unfold nc, is_comment_tok; now rewrite Hk).
+    cbn [filter]. rewrite Hnc. unfold vals. cbn [filter]. rewrite Ev. cbn [map].
+    rewrite toks_text_cons.
+    unfold tok_ok_sp in Ht. rewrite Hk in Ht. apply andb_true_iff in Ht. destruct Ht as [Hne Hw].
+    split.
+    + rewrite split_ws_word.
+      * f_equal. exact IH1.
+      * destruct (tx t); [discriminate|discriminate].
+      * exact Hw.
+      * apply IH2. reflexivity.
+    + intros Hp. rewrite orb_comm in Hp. congruence.
+  - destruct (nc t) eqn:Hnc.
+    + destruct (tok_ok_sp_ws t Ht Ev Hnc) as [Hne Hws].
+      cbn [filter]. rewrite Hnc. unfold vals. cbn [filter]. rewrite Ev.
+      rewrite toks_text_cons. split.
+      * rewrite split_ws_spaces by assumption. exact IH1.
+      * intros _. now apply ws_head_app_ne.
+    + (* a comment line: only after a line end *)
+      assert (Hk : tk t = KCom).
+      { unfold nc, is_comment_tok in Hnc. destruct (tk t); try discriminate; reflexivity. }
+      rewrite Hk in Es. cbn [astep] in Es. destruct (s_lf s) eqn:E; [|discriminate]. injection Es as <-.
+      cbn [filter]. rewrite Hnc. unfold vals. cbn [filter]. rewrite Ev. split; [exact IH1|].
+      intros _. apply IH2. reflexivity.
+Qed.
+
+Definition sp_item (t : tok) : item := if is_val t then IV [t] false else IT t.
+
+Lemma parse_stream_space : forall ts fuel, length ts < fuel ->
+  parse_stream Space fuel ts = Ok (map sp_item ts).
+Proof.
+  induction ts as [|t r IH]; intros fuel Hf; (destruct fuel as [|f]; [simpl in Hf; lia|]); [reflexivity|].
+  cbn [parse_stream]. simpl in Hf. unfold sp_item at 1. cbn [map].
+  destruct (is_val t); rewrite IH by lia; reflexivity.
+Qed.
+
+Lemma items_text_sp ts : items_text (map sp_item ts) = toks_text ts.
+Proof.
+  induction ts as [|t r IH]; [reflexivity|]. unfold items_text in *. cbn [map concat].
+  rewrite IH. rewrite toks_text_cons. f_equal. unfold sp_item. destruct (is_val t); unfold item_text, toks_text; simpl; now rewrite app_nil_r.
+Qed.
+
+Lemma is_val_nc t : is_val t = true -> is_comment_tok t = false.
+Proof. unfold is_val, is_comment_tok. destruct (tk t); try discriminate; reflexivity. Qed.
+
+Lemma is_value_sp t : is_value (sp_item t) = is_val t.
+Proof. unfold sp_item. destruct (is_val t); reflexivity. Qed.
+
+Lemma render_sp t : is_val t = true -> render (sp_item t) = tx t.
+Proof.
+  intros E. unfold sp_item. rewrite E. unfold render. cbn [item_toks filter].
+  rewrite is_val_nc by assumption. cbn [negb]. unfold toks_text. simpl. now rewrite app_nil_r.
+Qed.
+
+Lemma values_of_sp ts : values_of (map sp_item ts) = vals ts.
+Proof.
+  induction ts as [|t r IH]; [reflexivity|]. unfold values_of, vals in *. cbn [map filter].
+  rewrite is_value_sp. destruct (is_val t) eqn:E; [|exact IH].
+  cbn [map]. rewrite IH, render_sp by assumption. reflexivity.
+Qed.
+
+Lemma values_of_app a b : values_of (a ++ b) = values_of a ++ values_of b.
+Proof. unfold values_of. now rewrite filter_app, map_app. Qed.
+
+(** dropping a final non-value item does not change the values *)
+Lemma values_of_removelast its t : last_opt its = Some (IT t) -> values_of (removelast its) = values_of its.
+Proof.
+  intros H. apply ends_snoc_inv in H. rewrite H at 2. rewrite values_of_app.
+  unfold values_of at 3. simpl. now rewrite app_nil_r.
+Qed.
+
+Lemma mk_view_values its : its <> [] ->
+  exists vw, mk_view its = Ok vw /\ view_values vw = values_of its.
+Proof.
+  intros Hne. unfold mk_view. destruct its as [|i0 its0] eqn:Eits; [congruence|]. rewrite <- Eits in *.
+  eexists. split; [reflexivity|]. unfold view_values, v_items. cbn [v_nodes].
+  assert (G : forall n l, map snd (number_from n l) = l).
+  { intros n l. revert n. induction l as [|x l IH]; intros n; [reflexivity|]. simpl. now rewrite IH. }
+  rewrite G. destruct (last_opt its) as [[t|ts f]|] eqn:El; try reflexivity.
+  destruct (kind_eqb (tk t) KNl); [|reflexivity]. now apply values_of_removelast with t.
+Qed.
+
+Theorem view_reads_split_space v : value_ok v = true ->
+  exists vw, interpret Space v = Ok vw /\ view_values vw = split_spec false v.
+Proof.
+  intros Hv. destruct (tokenize_sp_ok v Hv) as [ts [s' [Htok [Htx [Hok [Hdc [_ [Hrun _]]]]]]]].
+  destruct (sp_vals ts s0 s' Hok Hrun) as [Hvals _].
+  unfold interpret, parse_str. rewrite Htok. cbn [bind]. rewrite Htx, Nat.eqb_refl. cbn [negb].
+  rewrite parse_stream_space by lia. cbn [bind]. rewrite items_text_sp, Htx, Nat.eqb_refl. cbn [negb].
+  assert (Hne : map sp_item ts <> []).
+  { destruct ts; [|discriminate]. unfold toks_text in Htx. simpl in Htx. subst v. discriminate. }
+  destruct (mk_view_values _ Hne) as [vw [Hvw Hvals']].
+  exists vw. split; [exact Hvw|]. rewrite Hvals', values_of_sp, <- Hvals, Hdc. reflexivity.
+Qed.
+
+(** * The comma finditer leaf *)
+
+Definition word_ok (w : str) : bool :=
+  match w with
+  | c :: _ => negb (isws c)
+              && match last_opt w with Some d => negb (isws d) | None => false end
+              && forallb not_comma w
+  | [] => false
+  end.
+
+Lemma span_cons_false {A} (p : A -> bool) c s : p c = false -> span p (c :: s) = ([], c :: s).
+Proof. simpl. now intros ->. Qed.
+
+Lemma not_comma_false c : not_comma c = false -> c = COMMA.
+Proof. unfold not_comma. intros H. apply negb_false_iff in H. now apply N.eqb_eq in H. Qed.
+
+Lemma skipn_length_app {A} (a b : list A) : skipn (length a) (a ++ b) = b.
+Proof. induction a; simpl; auto. Qed.
+
+Lemma firstn_length_app {A} (a b : list A) : firstn (length a) (a ++ b) = a.
+Proof. induction a; simpl; [reflexivity|]. now f_equal. Qed.
+
+Lemma comma_tail_spec s sbw w saw rest :
+  comma_tail s = ((sbw, w, saw), rest) ->
+  s = sbw ++ w ++ saw ++ rest
+  /\ forallb isws sbw = true /\ forallb isws saw = true
+  /\ (w = [] /\ saw = [] \/ word_ok w = true)
+  /\ (rest = [] \/ exists r, rest = COMMA :: r).
+Proof.
+  unfold comma_tail. destruct (span isws s) as [sb r1] eqn:E1. apply span_eq in E1.
+  destruct E1 as [Es [Hsb Hr1]].
+  destruct r1 as [|c r1'].
+  - intros [= <- <- <- <-]. rewrite app_nil_r in Es. splits; auto. cbn [app]. now rewrite app_nil_r.
+  - destruct (not_comma c) eqn:Ec.
+    + destruct (span not_comma (c :: r1')) as [run r2] eqn:E2. apply span_eq in E2.
+      destruct E2 as [Er [Hrun Hr2]].
+      intros [= <- <- <- <-].
+      destruct (rdropwhile_split isws run) as [t [Ht1 Ht2]].
+      assert (Hsk : skipn (length (rstrip_by isws run)) run = t).
+      { unfold rstrip_by. rewrite Ht1 at 2. apply skipn_length_app. }
+      rewrite Hsk. unfold rstrip_by in *.
+      destruct run as [|c' run'].
+      { simpl in Er. subst r2. rewrite Ec in Hr2. discriminate. }
+      simpl in Er. injection Er as <- Er'.
+      splits; auto.
+      * rewrite Es. f_equal. rewrite app_assoc, <- Ht1. simpl. now rewrite Er'.
+      * right. rewrite rdropwhile_cons_keep by assumption. unfold word_ok.
+        rewrite Hr1. cbn [negb andb].
+        pose proof (rdropwhile_last isws (c :: run')) as HL.
+        rewrite rdropwhile_cons_keep in HL by assumption.
+        destruct (last_opt (c :: rdropwhile isws run')) as [d|] eqn:EL.
+        -- rewrite HL. cbn [negb andb].
+           rewrite rdropwhile_cons_keep in Ht1 by assumption. rewrite Ht1 in Hrun.
+           apply forallb_app_iff in Hrun. tauto.
+        -- apply last_opt_none in EL. discriminate.
+      * destruct r2 as [|d r2']; [now left|right]. apply not_comma_false in Hr2. subst d. now exists r2'.
+    + intros [= <- <- <- <-]. apply not_comma_false in Ec. subst c. splits; auto.
+      right. now exists r1'.
+Qed.
+
+(** text conditions by kind, for the tokens of a comma-separated list *)
+Definition tok_ok_cm (t : tok) : bool :=
+  match tk t with
+  | KVal => word_ok (tx t)
+  | KWs => nonempty (tx t) && forallb isws (tx t)
+  | KComma => str_eqb (tx t) [COMMA]
+  | KCont => str_eqb (tx t) [SP] || str_eqb (tx t) [TAB]
+  | KNl => str_eqb (tx t) [LF]
+  | KCom => true
+  | KSep => false
+  end.
+
+Definition ctoks (gs : list cgroups) : list tok :=
+  flat_map (fun g =>
+        opt_tok KWs (g_sbc g) ++ (if g_comma g then [Tok KComma [COMMA]] else [])
+        ++ opt_tok KWs (g_sbw g) ++ opt_tok KVal (g_word g) ++ opt_tok KWs (g_saw g)) gs.
+
+(** kinds a line body can produce *)
+Definition inline_cm (t : tok) : bool := match tk t with KVal | KWs | KComma => true | _ => false end.
+
+Lemma opt_ws_ok s : forallb isws s = true ->
+  Forall (fun t => tok_ok_cm t = true) (opt_tok KWs s) /\ forallb inline_cm (opt_tok KWs s) = true.
+Proof.
+  intros H. destruct s as [|c s]; [split; [constructor|reflexivity]|].
+  split; [|reflexivity]. constructor; [|constructor]. unfold tok_ok_cm. cbn [tk tx nonempty]. now rewrite H.
+Qed.
+
+Lemma opt_val_ok w : w = [] \/ word_ok w = true ->
+  Forall (fun t => tok_ok_cm t = true) (opt_tok KVal w) /\ forallb inline_cm (opt_tok KVal w) = true.
+Proof.
+  intros H. destruct w as [|c w]; [split; [constructor|reflexivity]|].
+  destruct H as [H|H]; [discriminate|]. split; [|reflexivity]. constructor; [exact H|constructor].
+Qed.
+
+(** the tokens of one match *)
+Lemma group_toks_ok (cm : bool) sbw w saw :
+  forallb isws sbw = true -> forallb isws saw = true -> (w = [] /\ saw = [] \/ word_ok w = true) ->
+  let ts := opt_tok KWs [] ++ (if cm then [Tok KComma [COMMA]] else [])
+            ++ opt_tok KWs sbw ++ opt_tok KVal w ++ opt_tok KWs saw in
+  toks_text ts = (if cm then [COMMA] else []) ++ sbw ++ w ++ saw
+  /\ Forall (fun t => tok_ok_cm t = true) ts /\ forallb inline_cm ts = true.
+Proof.
+  intros H1 H2 H3 ts. subst ts.
+  destruct (opt_ws_ok sbw H1) as [A1 B1]. destruct (opt_ws_ok saw H2) as [A2 B2].
+  assert (H3' : w = [] \/ word_ok w = true) by tauto.
+  destruct (opt_val_ok w H3') as [A3 B3].
+  splits.
+  - rewrite !toks_text_app, !toks_text_opt. destruct cm; reflexivity.
+  - cbn [opt_tok app]. apply Forall_app. split; [destruct cm; repeat constructor|].
+    repeat (apply Forall_app; split); assumption.
+  - cbn [opt_tok app]. rewrite !forallb_app, B1, B2, B3. destruct cm; reflexivity.
+Qed.
+
+Lemma comma_finditer_rest : forall n s fuel (at_start must_adv : bool),
+  length s <= n -> length s < fuel ->
+  (at_start = true -> must_adv = true) ->
+  (s = [] \/ exists s', s = COMMA :: s') ->
+  exists gs, comma_finditer fuel at_start must_adv s = Ok gs
+    /\ toks_text (ctoks gs) = s
+    /\ Forall (fun t => tok_ok_cm t = true) (ctoks gs)
+    /\ forallb inline_cm (ctoks gs) = true.
+Proof.
+  induction n as [|n IH]; intros s fuel at_start must_adv Hn Hf Hfl Hs.
+  - destruct s; [|simpl in Hn; lia]. destruct fuel; [simpl in Hf; lia|].
+    exists []. split; [|splits; try constructor].
+    cbn [comma_finditer comma_try comma_tail span]. destruct at_start.
+    + rewrite (Hfl eq_refl). reflexivity.
+    + reflexivity.
+  - destruct Hs as [->|[s' ->]].
+    { destruct fuel; [simpl in Hf; lia|].
+      exists []. split; [|splits; try constructor].
+      cbn [comma_finditer comma_try comma_tail span]. destruct at_start.
+      + rewrite (Hfl eq_refl). reflexivity.
+      + reflexivity. }
+    destruct fuel as [|f]; [lia|]. simpl in Hn, Hf.
+    destruct (comma_tail s') as [[[sbw w] saw] rest] eqn:Et.
+    destruct (comma_tail_spec _ _ _ _ _ Et) as [Es [Hsbw [Hsaw [Hw Hrest]]]].
+    assert (Htry : comma_try at_start must_adv (COMMA :: s') = Some (CG [] true sbw w saw, rest, false)).
+    { unfold comma_try. rewrite (span_cons_false isws COMMA s' isws_COMMA).
+      change (COMMA =? COMMA)%N with true. cbn iota. rewrite Et.
+      destruct at_start; [|reflexivity].
+      rewrite (Hfl eq_refl). unfold comma_tail. rewrite (span_cons_false isws COMMA s' isws_COMMA).
+      change (not_comma COMMA) with false. cbn iota. reflexivity. }
+    cbn [comma_finditer]. rewrite Htry. cbn [andb].
+    assert (Hlen : length rest <= length s').
+    { rewrite Es. rewrite !app_length. lia. }
+    assert (Hff : false = true -> false = true) by (intros; assumption).
+    destruct (IH rest f false false ltac:(lia) ltac:(lia) Hff Hrest) as [gs [Hgs [Htx [Hok Hin]]]].
+    rewrite andb_false_r. rewrite Hgs. cbn [bind]. eexists. split; [reflexivity|].
+    cbn [ctoks flat_map g_sbc g_comma g_sbw g_word g_saw]. fold (ctoks gs).
+    destruct (group_toks_ok true sbw w saw Hsbw Hsaw Hw) as [T1 [T2 T3]].
+    splits.
+    + rewrite toks_text_app, T1, Htx. rewrite Es. cbn [app]. now rewrite <- !app_assoc.
+    + apply Forall_app. split; assumption.
+    + rewrite forallb_app, T3, Hin. reflexivity.
+Qed.
+
+Lemma comma_finditer_S f a m s :
+  comma_finditer (S f) a m s =
+  match comma_try a m s with
+  | Some (g, rest, empty) => do more <- comma_finditer f (a && empty) empty rest; Ok (g :: more)
+  | None => match s with [] => Ok [] | _ :: s' => comma_finditer f false false s' end
+  end.
+Proof. reflexivity. Qed.
+
+(** comma_split_tokenizer's body on one line *)
+Lemma comma_line_tokens_ok body :
+  exists ts, comma_line_tokens body = Ok ts
+    /\ toks_text ts = body
+    /\ Forall (fun t => tok_ok_cm t = true) ts
+    /\ forallb inline_cm ts = true.
+Proof.
+  unfold comma_line_tokens, comma_groups.
+  destruct (comma_tail body) as [[[sbw w] saw] rest] eqn:Et.
+  destruct (comma_tail_spec _ _ _ _ _ Et) as [Es [Hsbw [Hsaw [Hw Hrest]]]].
+  assert (Hlen : length rest <= length body) by (rewrite Es; rewrite !app_length; lia).
+  set (fuel := 2 * length body + 2).
+  assert (Hfuel : fuel = S (S (2 * length body))) by (subst fuel; lia).
+  rewrite Hfuel. rewrite comma_finditer_S. cbn [comma_try]. rewrite Et. cbn [andb].
+  set (empty := negb (nonempty sbw || nonempty w || nonempty saw)).
+  destruct (comma_finditer_rest (length rest) rest (S (2 * length body)) empty empty) as [gs [Hgs [Htx [Hok Hin]]]];
+    try lia; auto.
+  rewrite Hgs. cbn [bind]. eexists. split; [reflexivity|].
+  fold ctoks. cbn [ctoks flat_map g_sbc g_comma g_sbw g_word g_saw]. fold (ctoks gs).
+  destruct (group_toks_ok false sbw w saw Hsbw Hsaw Hw) as [T1 [T2 T3]].
+  splits.
+  - rewrite toks_text_app, T1, Htx. rewrite Es. cbn [app]. now rewrite <- !app_assoc.
+  - apply Forall_app. split; assumption.
+  - rewrite forallb_app, T3, Hin. reflexivity.
+Qed.
+
+(** * The tokens of a whole value text (comma-separated lists) *)
+
+Lemma inline_cm_nc ts : forallb inline_cm ts = true -> filter nc ts = ts.
+Proof.
+  induction ts as [|t ts IH]; [reflexivity|]. simpl. intros H.
+  apply andb_true_iff in H. destruct H as [Ht H].
+  assert (nc t = true) as ->.
+  { unfold nc, is_comment_tok, inline_cm in *. destruct (tk t); try discriminate; reflexivity. }
+  now rewrite IH.
+Qed.
+
+Lemma cont_line_cm c b (term : bool) :
+  (c =? SP)%N || (c =? TAB)%N = true -> no_lb b = true ->
+  let l := c :: b ++ (if term then [LF] else []) in
+  exists ts, line_tokens Comma false l = Ok ts
+    /\ toks_text ts = l
+    /\ Forall (fun t => tok_ok_cm t = true) ts
+    /\ filter nc ts = ts.
+Proof.
+  intros Hc Hb l.
+  assert (Hh : starts_hash l = false).
+  { subst l. simpl. apply orb_true_iff in Hc. destruct Hc as [Hc|Hc]; apply N.eqb_eq in Hc; subst c; reflexivity. }
+  unfold line_tokens. rewrite Hh. cbn [negb andb]. subst l. cbn [bind].
+  destruct (comma_line_tokens_ok b) as [ts [Hts [Htx [Hok Hin]]]].
+  assert (Hkc : tok_ok_cm (Tok KCont [c]) = true).
+  { unfold tok_ok_cm. cbn [tk tx]. apply orb_true_iff in Hc.
+    destruct Hc as [Hc|Hc]; apply N.eqb_eq in Hc; subst c; reflexivity. }
+  destruct term.
+  - rewrite ends_with_lf_snoc, removelast_snoc. cbn [line_func]. rewrite Hts. cbn [bind].
+    eexists. split; [reflexivity|]. splits.
+    + cbn [app]. rewrite toks_text_cons, toks_text_app, Htx. reflexivity.
+    + constructor; [exact Hkc|]. apply Forall_app. split; [assumption|]. constructor; [reflexivity|constructor].
+    + cbn [app filter nc is_comment_tok tk kind_eqb negb]. rewrite filter_app, inline_cm_nc by assumption. reflexivity.
+  - rewrite app_nil_r. rewrite no_lb_not_ends_lf by assumption. cbn [line_func]. rewrite Hts. cbn [bind].
+    eexists. split; [reflexivity|]. splits.
+    + cbn [app]. rewrite app_nil_r, toks_text_cons, Htx. reflexivity.
+    + rewrite app_nil_r. constructor; assumption.
+    + rewrite app_nil_r. cbn [app filter nc is_comment_tok tk kind_eqb negb]. now rewrite inline_cm_nc.
+Qed.
+
+Lemma cont_lines_cm : forall r,
+  lf_only r = true -> forallb cont_line_ok (lines_lf r) = true ->
+  exists ts, lines_tokens Comma false (lines_lf r) = Ok ts
+    /\ toks_text ts = r
+    /\ Forall (fun t => tok_ok_cm t = true) ts
+    /\ toks_text (filter nc ts) = concat (filter noncomment_line (lines_lf r)).
+Proof.
+  intros r. pattern r. apply lines_ind; clear r.
+  - intros _ _. exists []. splits; try constructor.
+  - intros b Hne Hb Hlf Hok. rewrite lines_lf_last in * by assumption.
+    simpl in Hok. rewrite andb_true_r in Hok. unfold cont_line_ok in Hok.
+    apply andb_true_iff in Hok. destruct Hok as [Hsc _].
+    pose proof (lf_only_no_lb b Hlf Hb) as Hlb.
+    destruct (starts_cont_cases b Hsc) as [c [b' [-> [Hc|[Hc Hh]]]]].
+    + apply N.eqb_eq in Hc. subst c. cbn [lines_tokens line_tokens negb andb starts_hash].
+      change (HASH =? HASH)%N with true. cbn [bind app].
+      eexists. split; [reflexivity|]. splits.
+      * unfold toks_text. simpl. now rewrite app_nil_r.
+      * constructor; [reflexivity|constructor].
+      * reflexivity.
+    + assert (Hb' : no_lb b' = true).
+      { change (c :: b') with ([c] ++ b') in Hlb. rewrite no_lb_app in Hlb. apply andb_true_iff in Hlb. tauto. }
+      destruct (cont_line_cm c b' false Hc Hb') as [ts [Hts [Htx [Hk Hf]]]].
+      rewrite app_nil_r in *. cbn [lines_tokens]. rewrite Hts. cbn [bind]. rewrite app_nil_r.
+      exists ts. splits; try assumption; try reflexivity.
+      rewrite Hf, Htx. cbn [filter]. rewrite noncomment_line_cons, Hh. cbn [negb concat]. now rewrite app_nil_r.
+  - intros b r Hb IH Hlf Hok. rewrite lines_lf_line in * by assumption.
+    destruct (lf_only_line b r Hlf Hb) as [Hlb Hlfr].
+    cbn [forallb] in Hok. apply andb_true_iff in Hok. destruct Hok as [Hl Hok].
+    destruct (IH Hlfr Hok) as [tr [Htr [Htxr [Hkr Hfr]]]].
+    unfold cont_line_ok in Hl. apply andb_true_iff in Hl. destruct Hl as [Hsc _].
+    destruct (starts_cont_cases _ Hsc) as [c [b' [El [Hc|[Hc Hh]]]]].
+    + apply N.eqb_eq in Hc. subst c. cbn [lines_tokens]. rewrite El.
+      cbn [line_tokens negb andb starts_hash]. change (HASH =? HASH)%N with true. cbn [bind].
+      rewrite Htr. cbn [bind app]. exists (Tok KCom (HASH :: b') :: tr). split; [reflexivity|]. splits.
+      * rewrite toks_text_cons, Htxr. cbn [tx]. rewrite <- El. now rewrite <- app_assoc.
+      * constructor; [reflexivity|assumption].
+      * cbn [filter nc is_comment_tok tk kind_eqb negb]. rewrite noncomment_line_cons.
+        change (HASH =? HASH)%N with true. cbn [negb]. exact Hfr.
+    + destruct b as [|c1 b1]; [simpl in El; injection El as <- <-; discriminate|].
+      simpl in El. injection El as <- <-.
+      assert (Hb' : no_lb b1 = true).
+      { change (c1 :: b1) with ([c1] ++ b1) in Hlb. rewrite no_lb_app in Hlb. apply andb_true_iff in Hlb. tauto. }
+      destruct (cont_line_cm c1 b1 true Hc Hb') as [ts [Hts [Htx [Hk Hf]]]].
+      cbn [lines_tokens]. change ((c1 :: b1) ++ [LF]) with (c1 :: b1 ++ [LF]).
+      rewrite Hts. cbn [bind]. rewrite Htr. cbn [bind].
+      eexists. split; [reflexivity|]. splits.
+      * rewrite toks_text_app, Htx, Htxr. cbn [app]. now rewrite <- app_assoc.
+      * apply Forall_app. split; assumption.
+      * rewrite filter_app, toks_text_app, Hf, Htx, Hfr.
+        cbn [filter]. rewrite noncomment_line_cons, Hh. cbn [negb concat]. reflexivity.
+Qed.
+
+Lemma tokenize_cm_ok v : value_ok v = true ->
+  exists ts, tokenize Comma v = Ok ts
+    /\ toks_text ts = v
+    /\ Forall (fun t => tok_ok_cm t = true) ts
+    /\ toks_text (filter nc ts) = drop_comment_lines v.
+Proof.
+  intros Hv. unfold value_ok in Hv. apply andb_true_iff in Hv. destruct Hv as [Hv Hls].
+  apply andb_true_iff in Hv. destruct Hv as [Hlf Hnb]. apply negb_true_iff in Hnb.
+  assert (Hne : v <> []) by (intros ->; discriminate).
+  unfold tokenize. rewrite blank_all_ws, Hnb by assumption.
+  rewrite splitlines_lf_only by assumption. unfold drop_comment_lines.
+  destruct (lf_decompose v) as [b [rest [Hb [[-> ->]|[r [-> ->]]]]]].
+  - pose proof (lf_only_no_lb b Hlf Hb) as Hlb.
+    rewrite lines_lf_last by assumption.
+    cbn [lines_tokens line_tokens negb andb bind]. rewrite no_lb_not_ends_lf by assumption.
+    cbn [line_func].
+    destruct (comma_line_tokens_ok b) as [ts [Hts [Htx [Hok Hin]]]].
+    rewrite Hts. cbn [bind]. rewrite !app_nil_r.
+    exists ts. split; [reflexivity|]. splits; try assumption.
+    rewrite inline_cm_nc by assumption. exact Htx.
+  - destruct (lf_only_line b r Hlf Hb) as [Hlb Hlfr].
+    rewrite lines_lf_line in * by assumption.
+    destruct (cont_lines_cm r Hlfr Hls) as [tr [Htr [Htxr [Hkr Hfr]]]].
+    cbn [lines_tokens line_tokens negb andb bind]. rewrite ends_with_lf_snoc, removelast_snoc.
+    cbn [line_func].
+    destruct (comma_line_tokens_ok b) as [ts [Hts [Htx [Hok Hin]]]].
+    rewrite Hts. cbn [bind]. rewrite Htr. cbn [bind app].
+    exists ((ts ++ [Tok KNl [LF]]) ++ tr). split; [reflexivity|]. splits.
+    + rewrite !toks_text_app, Htx, Htxr. cbn. now rewrite <- app_assoc.
+    + repeat (apply Forall_app; split); try assumption. constructor; [reflexivity|constructor].
+    + rewrite !filter_app, !toks_text_app, inline_cm_nc, Htx, Hfr by assumption. reflexivity.
+Qed.
+
+(** * From tokens to values: comma-separated lists *)
+
+Definition nonval (t : tok) : bool := negb (is_val t).
+Definition noncomma (t : tok) : bool := negb (is_comma_tok t).
+Definition has_val (g : list tok) : bool := existsb is_val g.
+
+(** the token list cut at the comma tokens *)
+Fixpoint groups (ts : list tok) : list (list tok) :=
+  match ts with
+  | [] => [[]]
+  | t :: r =>
+      if is_comma_tok t then [] :: groups r
+      else match groups r with g :: gs => (t :: g) :: gs | [] => [[t]] end
+  end.
+
+(** from the first to the last value token *)
+Definition trim (g : list tok) : list tok := rdropwhile nonval (dropwhile nonval g).
+
+Definition cvals (ts : list tok) : list str :=
+  map (fun g => toks_text (filter nc (trim g))) (filter has_val (groups ts)).
+
+Lemma groups_nonempty ts : groups ts <> [].
+Proof.
+  induction ts as [|t r IH]; simpl; [discriminate|].
+  destruct (is_comma_tok t); [discriminate|]. destruct (groups r); discriminate.
+Qed.
+
+Lemma groups_app_free a : forall b,
+  forallb noncomma a = true ->
+  groups (a ++ b) = match groups b with g :: gs => (a ++ g) :: gs | [] => [a] end.
+Proof.
+  induction a as [|t a IH]; intros b H.
+  - simpl. pose proof (groups_nonempty b). destruct (groups b); [congruence|reflexivity].
+  - simpl in H. apply andb_true_iff in H. destruct H as [Ht H]. unfold noncomma in Ht.
+    apply negb_true_iff in Ht. simpl. rewrite Ht. rewrite IH by assumption.
+    pose proof (groups_nonempty b). destruct (groups b); [congruence|reflexivity].
+Qed.
+
+Lemma peek_find_comma_span rest : forall i,
+  peek_find_comma rest i =
+  match snd (span noncomma rest) with
+  | [] => None
+  | _ :: _ => Some (S (i + length (fst (span noncomma rest))))
+  end.
+Proof.
+  induction rest as [|t r IH]; intros i; [reflexivity|].
+  cbn [peek_find_comma span].
+  assert (H : noncomma t = negb (is_comma_tok t)) by reflexivity. rewrite H.
+  destruct (is_comma_tok t); cbn [negb].
+  - cbn [fst snd length]. f_equal. lia.
+  - rewrite IH. destruct (span noncomma r) as [a b]. cbn [fst snd length].
+    destruct b; [reflexivity|]. f_equal. lia.
+Qed.
+
+Lemma has_val_false_all g : has_val g = false -> forallb nonval g = true.
+Proof.
+  induction g as [|t g IH]; [reflexivity|]. simpl. intros H. apply orb_false_iff in H.
+  destruct H as [H1 H2]. unfold nonval at 1. rewrite H1. simpl. now apply IH.
+Qed.
+
+Lemma all_nonval_has_val g : forallb nonval g = true -> has_val g = false.
+Proof.
+  induction g as [|t g IH]; [reflexivity|]. simpl. intros H. apply andb_true_iff in H.
+  destruct H as [H1 H2]. unfold nonval in H1. apply negb_true_iff in H1. rewrite H1. now apply IH.
+Qed.
+
+Lemma is_val_noncomma t : is_val t = true -> is_comma_tok t = false.
+Proof. unfold is_val, is_comma_tok. destruct (tk t); try discriminate; reflexivity. Qed.
+
+Lemma length_cons_pred {A} (a : A) l : length (a :: l) - 1 = length l.
+Proof. simpl. lia. Qed.
+
+Lemma trim_nonval_cons t g : is_val t = false -> trim (t :: g) = trim g.
+Proof. intros H. unfold trim. simpl. unfold nonval at 2. now rewrite H. Qed.
+
+Lemma trim_val_cons t g : is_val t = true -> trim (t :: g) = t :: rdropwhile nonval g.
+Proof.
+  intros H. unfold trim. simpl. unfold nonval at 2. rewrite H. cbn [negb].
+  apply rdropwhile_cons_keep. unfold nonval. now rewrite H.
+Qed.
+
+Lemma cvals_nonval_cons t r : is_val t = false -> cvals (t :: r) = cvals r.
+Proof.
+  intros Hv. unfold cvals. cbn [groups]. destruct (is_comma_tok t) eqn:Ec.
+  - reflexivity.
+  - pose proof (groups_nonempty r). destruct (groups r) as [|g gs]; [congruence|].
+    cbn [filter has_val existsb]. rewrite Hv. cbn [orb]. fold (has_val g).
+    destruct (has_val g); [|reflexivity]. cbn [map]. f_equal.
+    now rewrite trim_nonval_cons.
+Qed.
+
+Lemma cvals_nonvals a : forall b, forallb nonval a = true -> forallb noncomma a = true ->
+  cvals (a ++ b) = cvals b.
+Proof.
+  induction a as [|t a IH]; intros b H1 H2; [reflexivity|].
+  simpl in H1, H2. apply andb_true_iff in H1. apply andb_true_iff in H2.
+  destruct H1 as [Ht H1]. destruct H2 as [_ H2]. unfold nonval in Ht. apply negb_true_iff in Ht.
+  cbn [app]. rewrite cvals_nonval_cons by assumption. now apply IH.
+Qed.
+
+(** a value token, the rest of its group [a], then the end or a comma *)
+Lemma cvals_val t a b :
+  is_val t = true -> forallb noncomma a = true -> (b = [] \/ exists c b', b = c :: b' /\ is_comma_tok c = true) ->
+  cvals (t :: a ++ b) = toks_text (filter nc (t :: rdropwhile nonval a)) :: cvals b.
+Proof.
+  intros Hv Ha Hb. unfold cvals. cbn [groups]. rewrite is_val_noncomma by assumption.
+  rewrite groups_app_free by assumption.
+  assert (G : exists gs, groups b = [] :: gs).
+  { destruct Hb as [->|[c [b' [-> Hc]]]]; [now exists []|]. cbn [groups]. rewrite Hc. now eexists. }
+  destruct G as [gs ->]. rewrite app_nil_r. cbn [filter has_val existsb]. rewrite Hv. cbn [orb map].
+  f_equal. now rewrite trim_val_cons.
+Qed.
+
+Lemma span_noncomma_rest rest a b : span noncomma rest = (a, b) ->
+  rest = a ++ b /\ forallb noncomma a = true /\ (b = [] \/ exists c b', b = c :: b' /\ is_comma_tok c = true).
+Proof.
+  intros H. apply span_eq in H. destruct H as [H1 [H2 H3]]. splits; auto.
+  destruct b as [|c b']; [now left|right]. exists c, b'. split; [reflexivity|].
+  unfold noncomma in H3. now apply negb_false_iff in H3.
+Qed.
+
+Lemma items_text_cons it its : items_text (it :: its) = item_text it ++ items_text its.
+Proof. reflexivity. Qed.
+
+Lemma parse_stream_comma : forall n ts fuel,
+  length ts <= n -> length ts < fuel ->
+  exists its, parse_stream Comma fuel ts = Ok its
+    /\ values_of its = cvals ts
+    /\ items_text its = toks_text ts
+    /\ (ts <> [] -> its <> []).
+Proof.
+  induction n as [|n IH]; intros ts fuel Hn Hf.
+  - destruct ts; [|simpl in Hn; lia]. destruct fuel; [simpl in Hf; lia|].
+    exists []. splits; try reflexivity. congruence.
+  - destruct ts as [|t rest].
+    { destruct fuel; [simpl in Hf; lia|]. exists []. splits; try reflexivity. congruence. }
+    destruct fuel as [|f]; [lia|]. simpl in Hn, Hf. cbn [parse_stream].
+    destruct (is_val t) eqn:Hv.
+    + destruct (span noncomma rest) as [a b] eqn:Esp.
+      destruct (span_noncomma_rest _ _ _ Esp) as [Er [Ha Hb]].
+      assert (Hseg : match peek_find_comma rest 0 with
+                     | Some off => firstn (off - 1) rest
+                     | None => rest
+                     end = a).
+      { rewrite peek_find_comma_span, Esp. cbn [fst snd]. destruct b as [|c b'].
+        - rewrite app_nil_r in Er. now subst.
+        - cbn [plus]. rewrite Nat.sub_1_r. cbn [pred]. rewrite Er. apply firstn_length_app. }
+      rewrite Hseg. unfold trim_to_value. fold nonval.
+      assert (Hnt : nonval t = false) by (unfold nonval; now rewrite Hv).
+      rewrite rdropwhile_cons_keep by assumption. rewrite length_cons_pred.
+      destruct (rdropwhile_split nonval a) as [tail [Htl1 Htl2]].
+      set (keep := rdropwhile nonval a) in *.
+      assert (Hskip : skipn (length keep) rest = tail ++ b).
+      { rewrite Er, Htl1, <- app_assoc. apply skipn_length_app. }
+      rewrite Hskip.
+      assert (Hlen : length (tail ++ b) <= length rest).
+      { rewrite Er, Htl1. rewrite !app_length. lia. }
+      destruct (IH (tail ++ b) f ltac:(lia) ltac:(lia)) as [its [Hits [Hvals [Htxt _]]]].
+      rewrite Hits. cbn [bind]. eexists. split; [reflexivity|]. splits.
+      * unfold values_of in *. cbn [filter is_value map]. rewrite Hvals.
+        rewrite Er. rewrite cvals_val by assumption. f_equal.
+        apply cvals_nonvals; [assumption|].
+        rewrite Htl1 in Ha. apply forallb_app_iff in Ha. tauto.
+      * rewrite items_text_cons, Htxt. unfold item_text. cbn [item_toks].
+        rewrite <- toks_text_app. f_equal. cbn [app]. f_equal. rewrite Er.
+        transitivity ((keep ++ tail) ++ b); [now rewrite <- app_assoc|now rewrite <- Htl1].
+      * discriminate.
+    + destruct (IH rest f ltac:(lia) ltac:(lia)) as [its [Hits [Hvals [Htxt _]]]].
+      rewrite Hits. cbn [bind]. eexists. split; [reflexivity|]. splits.
+      * unfold values_of in *. cbn [filter is_value]. rewrite Hvals. now rewrite cvals_nonval_cons.
+      * rewrite items_text_cons, Htxt. unfold item_text. cbn [item_toks]. rewrite !toks_text_cons.
+        unfold toks_text at 1. simpl. now rewrite app_nil_r.
+      * discriminate.
+Qed.
+
+(** ** the spec side: splitting the comment-free text on commas *)
+
+Lemma dropwhile_filter {A} (p q : A -> bool) g :
+  (forall t, q t = false -> p t = true) ->
+  dropwhile p (filter q g) = filter q (dropwhile p g).
+Proof.
+  intros H. induction g as [|t g IH]; [reflexivity|]. simpl.
+  destruct (q t) eqn:Eq.
+  - simpl. destruct (p t); [exact IH|]. simpl. now rewrite Eq.
+  - rewrite (H t Eq). exact IH.
+Qed.
+
+Lemma rdropwhile_filter {A} (p q : A -> bool) g :
+  (forall t, q t = false -> p t = true) ->
+  rdropwhile p (filter q g) = filter q (rdropwhile p g).
+Proof.
+  intros H. induction g as [|t g IH] using rev_ind; [reflexivity|].
+  rewrite filter_app. cbn [filter]. rewrite rdropwhile_snoc. destruct (q t) eqn:Eq.
+  - rewrite rdropwhile_snoc. destruct (p t); [exact IH|]. rewrite filter_app. cbn [filter]. now rewrite Eq.
+  - rewrite app_nil_r, (H t Eq). exact IH.
+Qed.
+
+Lemma nc_false_nonval t : nc t = false -> nonval t = true.
+Proof. unfold nc, nonval, is_comment_tok, is_val. destruct (tk t); try discriminate; reflexivity. Qed.
+
+Lemma trim_filter_nc g : trim (filter nc g) = filter nc (trim g).
+Proof.
+  unfold trim. rewrite dropwhile_filter by apply nc_false_nonval.
+  apply rdropwhile_filter. apply nc_false_nonval.
+Qed.
+
+Lemma has_val_filter_nc g : has_val (filter nc g) = has_val g.
+Proof.
+  induction g as [|t g IH]; [reflexivity|]. simpl. destruct (nc t) eqn:E.
+  - simpl. now rewrite IH.
+  - apply nc_false_nonval in E. unfold nonval in E. apply negb_true_iff in E. now rewrite E.
+Qed.
+
+Lemma groups_filter_nc ts : groups (filter nc ts) = map (filter nc) (groups ts).
+Proof.
+  induction ts as [|t r IH]; [reflexivity|]. cbn [filter groups].
+  destruct (nc t) eqn:E.
+  - cbn [groups]. destruct (is_comma_tok t); [cbn [map filter]; now rewrite IH|].
+    rewrite IH. pose proof (groups_nonempty r). destruct (groups r) as [|g gs]; [congruence|].
+    cbn [map filter]. now rewrite E.
+  - assert (Hc : is_comma_tok t = false).
+    { unfold nc, is_comment_tok, is_comma_tok in *. destruct (tk t); try discriminate; reflexivity. }
+    rewrite Hc, IH. pose proof (groups_nonempty r). destruct (groups r) as [|g gs]; [congruence|].
+    cbn [map filter]. now rewrite E.
+Qed.
+
+(** a token of a comment-free list that is neither a value nor a comma is whitespace *)
+Lemma tok_ok_cm_ws t : tok_ok_cm t = true -> nc t = true -> is_val t = false -> is_comma_tok t = false ->
+  tx t <> [] /\ forallb isws (tx t) = true.
+Proof.
+  unfold tok_ok_cm, nc, is_val, is_comma_tok, is_comment_tok. destruct t as [k x]. cbn [tk tx].
+  destruct k; cbn [kind_eqb negb]; intros H; try discriminate; intros _ _ _.
+  - apply andb_true_iff in H. destruct H as [H1 H2]. split; [destruct x; discriminate|assumption].
+  - apply orb_true_iff in H. destruct H as [H|H]; apply str_eqb_eq in H; subst x; split; try discriminate; reflexivity.
+  - apply str_eqb_eq in H. subst x. split; [discriminate|reflexivity].
+Qed.
+
+Lemma mem_char_cons c x s : mem_char c (x :: s) = (c =? x)%N || mem_char c s.
+Proof. reflexivity. Qed.
+
+Lemma isws_not_comma s : forallb isws s = true -> negb (mem_char COMMA s) = true.
+Proof.
+  induction s as [|c s IH]; [reflexivity|]. cbn [forallb]. intros H. apply andb_true_iff in H.
+  destruct H as [Hc H]. rewrite mem_char_cons, negb_orb, IH by assumption. rewrite andb_true_r.
+  destruct (N.eqb_spec COMMA c) as [<-|]; [|reflexivity]. now rewrite isws_COMMA in Hc.
+Qed.
+
+Lemma not_comma_mem s : forallb not_comma s = true -> negb (mem_char COMMA s) = true.
+Proof.
+  induction s as [|c s IH]; [reflexivity|]. cbn [forallb]. intros H. apply andb_true_iff in H.
+  destruct H as [Hc H]. rewrite mem_char_cons, negb_orb, IH by assumption. rewrite andb_true_r.
+  unfold not_comma in Hc. now rewrite N.eqb_sym.
+Qed.
+
+Lemma word_ok_parts w : word_ok w = true ->
+  exists c w', w = c :: w' /\ isws c = false
+    /\ (exists d, last_opt w = Some d /\ isws d = false)
+    /\ forallb not_comma w = true.
+Proof.
+  unfold word_ok. destruct w as [|c w']; [discriminate|]. intros H.
+  apply andb_true_iff in H. destruct H as [H H3]. apply andb_true_iff in H. destruct H as [H1 H2].
+  exists c, w'. splits; auto.
+  - now apply negb_true_iff.
+  - destruct (last_opt (c :: w')) as [d|]; [|discriminate]. exists d. split; [reflexivity|now apply negb_true_iff].
+Qed.
+
+Lemma tok_ok_cm_free t : tok_ok_cm t = true -> nc t = true -> is_comma_tok t = false ->
+  negb (mem_char COMMA (tx t)) = true.
+Proof.
+  intros Hok Hnc Hc. destruct (is_val t) eqn:Ev.
+  - unfold is_val in Ev. unfold tok_ok_cm in Hok. destruct (tk t); try discriminate.
+    destruct (word_ok_parts _ Hok) as [c [w' [_ [_ [_ H]]]]]. now apply not_comma_mem.
+  - destruct (tok_ok_cm_ws t Hok Hnc Ev Hc) as [_ H]. now apply isws_not_comma.
+Qed.
+
+Lemma split_on_groups ts :
+  Forall (fun t => tok_ok_cm t = true) ts -> forallb nc ts = true ->
+  split_on COMMA (toks_text ts) = map toks_text (groups ts).
+Proof.
+  induction ts as [|t r IH]; intros Hok Hnc; [reflexivity|].
+  inversion Hok as [|? ? Ht Hr]; subst. simpl in Hnc. apply andb_true_iff in Hnc.
+  destruct Hnc as [Hn Hnr]. specialize (IH Hr Hnr).
+  cbn [groups]. rewrite toks_text_cons. destruct (is_comma_tok t) eqn:Ec.
+  - assert (Hx : tx t = [COMMA]).
+    { unfold is_comma_tok in Ec. unfold tok_ok_cm in Ht. destruct (tk t); try discriminate. now apply str_eqb_eq in Ht. }
+    rewrite Hx. cbn [app split_on]. rewrite N.eqb_refl. cbn [map]. now rewrite IH.
+  - rewrite split_on_app_free by now apply tok_ok_cm_free.
+    rewrite IH. pose proof (groups_nonempty r). destruct (groups r) as [|g gs]; [congruence|].
+    reflexivity.
+Qed.
+
+Definition group_ok (g : list tok) : Prop :=
+  Forall (fun t => tok_ok_cm t = true) g /\ forallb nc g = true /\ forallb noncomma g = true.
+
+Lemma groups_ok ts :
+  Forall (fun t => tok_ok_cm t = true) ts -> forallb nc ts = true ->
+  Forall group_ok (groups ts).
+Proof.
+  induction ts as [|t r IH]; intros Hok Hnc.
+  - constructor; [|constructor]. repeat split; constructor.
+  - inversion Hok as [|? ? Ht Hr]; subst. simpl in Hnc. apply andb_true_iff in Hnc.
+    destruct Hnc as [Hn Hnr]. specialize (IH Hr Hnr). cbn [groups].
+    destruct (is_comma_tok t) eqn:Ec.
+    + constructor; [|assumption]. repeat split; constructor.
+    + pose proof (groups_nonempty r). destruct (groups r) as [|g gs]; [congruence|].
+      inversion IH as [|? ? [G1 [G2 G3]] Hgs]; subst. constructor; [|assumption].
+      repeat split.
+      * now constructor.
+      * simpl. now rewrite Hn.
+      * simpl. unfold noncomma at 1. now rewrite Ec.
+Qed.
+
+Lemma group_ok_tail t g : group_ok (t :: g) -> group_ok g.
+Proof.
+  intros [H1 [H2 H3]]. inversion H1; subst. simpl in H2, H3.
+  apply andb_true_iff in H2. apply andb_true_iff in H3. repeat split; tauto.
+Qed.
+
+Lemma group_ok_app a b : group_ok (a ++ b) -> group_ok a /\ group_ok b.
+Proof.
+  intros [H1 [H2 H3]]. apply Forall_app in H1. rewrite forallb_app in H2, H3.
+  apply andb_true_iff in H2. apply andb_true_iff in H3. unfold group_ok. tauto.
+Qed.
+
+Lemma group_tok_cases t g : group_ok (t :: g) ->
+  (is_val t = true /\ word_ok (tx t) = true) \/ (is_val t = false /\ tx t <> [] /\ forallb isws (tx t) = true).
+Proof.
+  intros [H1 [H2 H3]]. inversion H1 as [|? ? Ht _]; subst. simpl in H2, H3.
+  apply andb_true_iff in H2. apply andb_true_iff in H3. destruct H2 as [Hn _]. destruct H3 as [Hc _].
+  unfold noncomma in Hc. apply negb_true_iff in Hc.
+  destruct (is_val t) eqn:Ev.
+  - left. split; [reflexivity|]. unfold is_val in Ev. unfold tok_ok_cm in Ht. destruct (tk t); try discriminate. exact Ht.
+  - right. split; [reflexivity|]. now apply tok_ok_cm_ws.
+Qed.
+
+Lemma lstrip_group g : group_ok g ->
+  dropwhile isws (toks_text g) = toks_text (dropwhile nonval g).
+Proof.
+  induction g as [|t g IH]; intros Hg; [reflexivity|].
+  destruct (group_tok_cases t g Hg) as [[Hv Hw]|[Hv [Hne Hws]]].
+  - cbn [dropwhile]. unfold nonval at 1. rewrite Hv. cbn [negb]. rewrite toks_text_cons.
+    destruct (word_ok_parts _ Hw) as [c [w' [-> [Hc _]]]]. cbn [app dropwhile]. now rewrite Hc.
+  - cbn [dropwhile]. unfold nonval at 1. rewrite Hv. cbn [negb]. rewrite toks_text_cons.
+    rewrite dropwhile_app_all by assumption. apply IH. now apply group_ok_tail with t.
+Qed.
+
+Lemma rstrip_group g : group_ok g ->
+  rdropwhile isws (toks_text g) = toks_text (rdropwhile nonval g).
+Proof.
+  induction g as [|t g IH] using rev_ind; intros Hg; [reflexivity|].
+  destruct (group_ok_app _ _ Hg) as [Hg0 Ht].
+  rewrite toks_text_app, rdropwhile_snoc.
+  destruct (group_tok_cases t [] Ht) as [[Hv Hw]|[Hv [Hne Hws]]].
+  - unfold nonval at 1. rewrite Hv. cbn [negb]. rewrite toks_text_app.
+    destruct (word_ok_parts _ Hw) as [c [w' [Ew [_ [[d [Hd1 Hd2]] _]]]]].
+    apply rdropwhile_keep_last with d; [|assumption].
+    unfold toks_text at 2. cbn [map concat]. rewrite app_nil_r.
+    rewrite last_opt_app; [assumption|]. rewrite Ew. discriminate.
+  - unfold nonval at 1. rewrite Hv. cbn [negb].
+    unfold toks_text at 2. cbn [map concat]. rewrite app_nil_r.
+    rewrite rdropwhile_app_drop by assumption. now apply IH.
+Qed.
+
+Lemma Forall_dropwhile {A} (P : A -> Prop) p l : Forall P l -> Forall P (dropwhile p l).
+Proof.
+  induction l as [|a l IH]; intros H; [constructor|]. simpl. destruct (p a); [|assumption].
+  inversion H; subst. now apply IH.
+Qed.
+
+Lemma group_ok_dropwhile g : group_ok g -> group_ok (dropwhile nonval g).
+Proof.
+  induction g as [|t g IH]; intros H; [assumption|]. simpl. destruct (nonval t); [|assumption].
+  apply IH. now apply group_ok_tail with t.
+Qed.
+
+Lemma strip_group g : group_ok g ->
+  strip_by isws (toks_text g) = toks_text (trim g)
+  /\ nonempty_str (toks_text (trim g)) = has_val g.
+Proof.
+  intros Hg. split.
+  - unfold strip_by, lstrip_by, rstrip_by, trim. rewrite lstrip_group by assumption.
+    apply rstrip_group. now apply group_ok_dropwhile.
+  - destruct (has_val g) eqn:Eh.
+    + assert (G : exists t r, dropwhile nonval g = t :: r /\ is_val t = true).
+      { clear Hg. induction g as [|t g IH]; [discriminate|]. simpl in Eh. simpl.
+        unfold nonval at 1. destruct (is_val t) eqn:Ev; cbn [negb].
+        - now exists t, g.
+        - simpl in Eh. now apply IH. }
+      destruct G as [t [r [Ed Ev]]]. unfold trim. rewrite Ed.
+      rewrite rdropwhile_cons_keep by (unfold nonval; now rewrite Ev).
+      pose proof (group_ok_dropwhile g Hg) as Hd. rewrite Ed in Hd.
+      destruct (group_tok_cases t r Hd) as [[_ Hw]|[Hv' _]]; [|congruence].
+      destruct (word_ok_parts _ Hw) as [c [w' [Ew _]]]. rewrite toks_text_cons, Ew. reflexivity.
+    + unfold trim. rewrite dropwhile_all by now apply has_val_false_all. reflexivity.
+Qed.
+
+Lemma strip_groups gs : Forall group_ok gs ->
+  filter nonempty_str (map (strip_by isws) (map toks_text gs))
+  = map (fun g => toks_text (trim g)) (filter has_val gs).
+Proof.
+  induction gs as [|g gs IH]; intros H; [reflexivity|].
+  inversion H as [|? ? Hg Hgs]; subst. cbn [map filter].
+  destruct (strip_group g Hg) as [S1 S2]. rewrite S1, S2.
+  destruct (has_val g); cbn [map]; now rewrite IH.
+Qed.
+
+Lemma forallb_filter_id {A} (p : A -> bool) l : forallb p (filter p l) = true.
+Proof. induction l as [|a l IH]; [reflexivity|]. simpl. destruct (p a) eqn:E; [simpl; now rewrite E|exact IH]. Qed.
+
+Lemma Forall_filter {A} (P : A -> Prop) p l : Forall P l -> Forall P (filter p l).
+Proof.
+  induction l as [|a l IH]; intros H; [constructor|]. inversion H; subst. simpl.
+  destruct (p a); [constructor; auto|auto].
+Qed.
+
+Lemma cm_vals ts : Forall (fun t => tok_ok_cm t = true) ts ->
+  filter nonempty_str (map (strip_by isws) (split_on COMMA (toks_text (filter nc ts)))) = cvals ts.
+Proof.
+  intros Hok.
+  assert (Hok' : Forall (fun t => tok_ok_cm t = true) (filter nc ts)) by now apply Forall_filter.
+  pose proof (forallb_filter_id nc ts) as Hnc.
+  rewrite split_on_groups by assumption.
+  rewrite strip_groups by now apply groups_ok.
+  rewrite groups_filter_nc. unfold cvals.
+  generalize (groups ts). intros gs. induction gs as [|g gs IH]; [reflexivity|].
+  cbn [map filter]. rewrite has_val_filter_nc. destruct (has_val g); [|exact IH].
+  cbn [map]. rewrite IH. now rewrite trim_filter_nc.
+Qed.
+
+Theorem view_reads_split_comma v : value_ok v = true ->
+  exists vw, interpret Comma v = Ok vw /\ view_values vw = split_spec true v.
+Proof.
+  intros Hv. destruct (tokenize_cm_ok v Hv) as [ts [Htok [Htx [Hok Hdc]]]].
+  unfold interpret, parse_str. rewrite Htok. cbn [bind]. rewrite Htx, Nat.eqb_refl. cbn [negb].
+  destruct (parse_stream_comma (length ts) ts (S (length ts))) as [its [Hits [Hvals [Hitx Hne]]]]; try lia.
+  rewrite Hits. cbn [bind]. rewrite Hitx, Htx, Nat.eqb_refl. cbn [negb].
+  assert (Hne' : its <> []).
+  { apply Hne. intros ->. unfold toks_text in Htx. simpl in Htx. subst v. discriminate. }
+  destruct (mk_view_values _ Hne') as [vw [Hvw Hvals']].
+  exists vw. split; [exact Hvw|]. rewrite Hvals', Hvals, <- cm_vals by assumption.
+  rewrite Hdc. reflexivity.
+Qed.
+
+(** * Opening a view and closing it without an edit *)
+
+Definition read_only (o : op) : bool := match o with OSnap | ORefGet _ => true | _ => false end.
+
+Lemma step_read_only k o vw : read_only o = true ->
+  v_changed (fst (fst (step k o vw))) = v_changed vw.
+Proof.
+  destruct o; try discriminate; intros _; cbn [step].
+  - reflexivity.
+  - destruct (ref_get j vw); reflexivity.
+Qed.
+
+Lemma run_ops_read_only k os : forall vw, forallb read_only os = true ->
+  v_changed (snd (run_ops k os vw)) = v_changed vw.
+Proof.
+  induction os as [|o os IH]; intros vw H; [reflexivity|].
+  simpl in H. apply andb_true_iff in H. destruct H as [Ho H].
+  cbn [run_ops]. pose proof (step_read_only k o vw Ho) as Hs.
+  destruct (step k o vw) as [[vw' e] got]. cbn [fst] in Hs.
+  destruct e; destruct (run_ops k os vw') as [outs vf] eqn:E; cbn [snd];
+    (replace vf with (snd (run_ops k os vw')) by now rewrite E); now rewrite IH.
+Qed.
+
+Lemma mk_view_unchanged its vw : mk_view its = Ok vw -> v_changed vw = false.
+Proof. unfold mk_view. destruct its; [discriminate|]. now intros [= <-]. Qed.
+
+(** open + (reads only) + close: nothing is written, whatever the field holds *)
+Theorem view_noop_identity k name value os :
+  forallb read_only os = true ->
+  sr_close (run_session k name value os) = None
+  /\ sr_value (run_session k name value os) = value.
+Proof.
+  intros H. unfold run_session. destruct (interpret k value) as [vw|e] eqn:Ei; [|split; reflexivity].
+  assert (Hc : v_changed vw = false).
+  { unfold interpret in Ei. destruct (parse_str k value); [|discriminate]. now apply mk_view_unchanged in Ei. }
+  pose proof (run_ops_read_only k os vw H) as Hr.
+  destruct (run_ops k os vw) as [outs vf]. cbn [snd] in Hr.
+  unfold close. rewrite Hr, Hc. split; reflexivity.
 Qed.
